@@ -47,7 +47,7 @@ CHECKS["C20"] = dict(
 
 CHECKS["C04"] = dict(
     technique="small-scope exhaustion: all 2^n activity patterns of all small graphs/grids decided on the posted encoding by an independent solver (projection) vs BFS, plus Hypothesis-generated end-to-end find_answer cases",
-    text="For every labelled simple graph on <=4 (thorough 5) vertices, drawn simple/multi graphs up to 7 (9) vertices and every grid shape with h*w <= 11 (16) through the BoolArray2D form, x acyclic x {rank encoding, native atom}, the public function is called once and ALL 2^n patterns are decided on the posted program (read through the public data model) by vlib/refz3 and compared with BFS connectivity / tree-ness: soundness, completeness and 'no other constraint on the caller's variables' at once. Native atoms are evaluated by the reference semantics. Every small graph is entered in three edge orientations (ascending, descending, long edges reversed). End-to-end cases feed the pattern as pinned/negated variables, expressions, constants, list/BoolArray1D/BoolArray2D through find_answer (z3, cspuz_core stand-in). Exhaustive within the scope, sampled beyond.",
+    text="For every labelled simple graph on <=4 (thorough 5) vertices, drawn simple/multi graphs up to 7 (9) vertices and every grid shape with h*w <= 11 (16) through the BoolArray2D form, x acyclic x {rank encoding, native atom}, the public function is called once and ALL 2^n patterns are decided on the posted program (read through the public data model) by vlib/refz3 and compared with BFS connectivity / tree-ness: soundness, completeness and 'no other constraint on the caller's variables' at once. Native atoms are evaluated by the reference semantics. Every small graph is entered in three edge orientations (ascending, descending, long edges reversed). End-to-end cases feed the pattern as pinned/negated variables, expressions, constants, list/BoolArray1D/BoolArray2D through find_answer (z3, cspuz_core stand-in). Exhaustive within the scope, sampled beyond. Winding shard: grids of 12-36 cells through the array form (rank encoding, acyclic on/off) with spiral / snake / ring / random induced-path patterns and neighbours that break them, decided on the posted program.",
     note="Trusted base: vlib/graphref BFS, vlib/refz3 (self-checked against brute force), z3 as LIA decision procedure. Acyclic mode on simple graphs only. 9/9 sensitivity mutants caught (one design-list mutant, '>= 1 -> == 1' in the non-acyclic branch, turned out to be semantically equivalent and was replaced).",
     design_ref="3/C04",
 )
@@ -66,7 +66,7 @@ CHECKS["C09"] = dict(
 
 CHECKS["C05"] = dict(
     technique="small-scope exhaustion of all k^n labelings on all small graphs/grids (projection through an independent solver) against the definition, plus Hypothesis-generated end-to-end cases over label forms",
-    text="For every labelled simple graph on <=4 vertices (thorough: a derived quarter of the 5-vertex graphs too), grid shapes with h*w <= 6 (8), num_regions 1..3, allow_empty_group on/off, roots absent or a derived list with None holes (vertex ids / (y,x)), both encodings, ALL k^n labelings are decided on the posted program and compared with: classes connected, every label used unless empty groups allowed, roots respected. End-to-end cases supply the labels as pinned IntArray1D/2D, arrays of expressions, lists of IntExpr and lists of Python ints, solved on z3 / the cspuz_core stand-in. Exhaustive within the scope.",
+    text="For every labelled simple graph on <=4 vertices (thorough: a derived quarter of the 5-vertex graphs too), grid shapes with h*w <= 6 (8), num_regions 1..3, allow_empty_group on/off, roots absent or a derived list with None holes (vertex ids / (y,x)), both encodings, ALL k^n labelings are decided on the posted program and compared with: classes connected, every label used unless empty groups allowed, roots respected. End-to-end cases supply the labels as pinned IntArray1D/2D, arrays of expressions, lists of IntExpr and lists of Python ints, solved on z3 / the cspuz_core stand-in. Exhaustive within the scope. Winding shard: grids of 12-30 cells where one label class is a long winding shape (roots at its far end, class cut in the middle as the negative case).",
     note="Trusted base: vlib/graphref, vlib/refz3 (CEGAR for the native atoms). Label domains exactly 0..k-1. 8/8 sensitivity mutants caught; two design-list mutants are equivalent w.r.t. the property and were dropped. Found and fixed the list-labels defect of the native branch.",
     design_ref="3/C05",
 )
@@ -80,7 +80,7 @@ CHECKS["C06"] = dict(
 
 CHECKS["C07"] = dict(
     technique="small-scope exhaustion: all set partitions (grouped form) and all 2^m border patterns (border form) on small graphs/grids decided on the posted encoding by an independent solver against the definition",
-    text="Grouped form: for every labelled simple graph on <=4 vertices, a derived sample of 5/6-vertex graphs and grid shapes with h*w<=6, with size specifications absent / constant / shared IntVar / per-vertex list with None holes / IntArray1D-2D / 2-D lists (with shape inference), every set partition is imposed on the returned ids as pairwise ==/!= and decided; SAT iff blocks connected and sizes met. Border form: all 2^m border patterns (m<=10) x sizes x {rank, native graph-division atom}, explicit graphs and BoolInnerGridFrame+IntArray2D; SAT iff components meet the sizes and no border lies inside a component. Exhaustive within the scope.",
+    text="Grouped form: for every labelled simple graph on <=4 vertices, a derived sample of 5/6-vertex graphs and grid shapes with h*w<=6, with size specifications absent / constant / shared IntVar / per-vertex list with None holes / IntArray1D-2D / 2-D lists (with shape inference), every set partition is imposed on the returned ids as pairwise ==/!= and decided; SAT iff blocks connected and sizes met. Border form: all 2^m border patterns (m<=10) x sizes x {rank, native graph-division atom}, explicit graphs and BoolInnerGridFrame+IntArray2D; SAT iff components meet the sizes and no border lies inside a component. Exhaustive within the scope. Winding shard: the shape= form on grids of 12-30 cells where one block is a spiral / snake / induced path (sizes absent or a list with holes, one wrong size as the negative case).",
     note="Trusted base: vlib/graphref, vlib/refz3 (CEGAR for the native atom). 12/12 sensitivity mutants caught (one design-list mutant, '>' -> '>=' in the subtree sum, is equivalent because active edges already join different ranks; replaced).",
     design_ref="3/C07",
 )
@@ -115,21 +115,21 @@ CHECKS["C16"] = dict(
 
 CHECKS["C17"] = dict(
     technique="mutational-structural Hypothesis fuzzing of the URL decoders with the semantic oracle inside the target; thorough tier adds an atheris (libFuzzer) coverage-guided campaign on the same entry function",
-    text="Inputs: valid URLs from the C16 generators (9 codecs) or synthetic URLs (codec-specific token bodies with dimensions 0..4, large boards with constant bodies, dimensions 0/1/huge/non-ASCII digits/empty, other hosts, missing segments) followed by 0..6 edits; arbitrary Unicode text; deserialize_problem_as_url with generated allowed_puzzles/allow_failure/return_size; get_puzzle_info_from_url; deserialize_problem(term, text, h, w) for generated combinator terms with mutated texts and odd sizes. Outcome must be None, ValueError or a problem of the dimensions stated in the URL that serializes and whose canonical text decodes to an equal problem; anything else is bucketed by (exception type, innermost cspuz frame) so that one root cause does not hide the next. Every body of <= 3 (4) characters over each codec's token characters on six tiny boards is enumerated exhaustively. Thorough: 16 atheris workers x 60 s (FuzzedDataProvider decoding into entry kind/codec/dimensions/body; empty and seeded corpora). One open known finding (Tupl.serialize ignoring surplus items of an element; see known_findings.json and DESIGN.md 7.8) is replayed on every run and printed as KNOWN-FINDING. Exploration.",
+    text="Inputs: valid URLs from the C16 generators (9 codecs) or synthetic URLs (codec-specific token bodies with dimensions 0..4, large boards with constant bodies, dimensions 0/1/huge/non-ASCII digits/empty, other hosts, missing segments) followed by 0..6 edits; arbitrary Unicode text; deserialize_problem_as_url with generated allowed_puzzles/allow_failure/return_size; get_puzzle_info_from_url; deserialize_problem(term, text, h, w) for generated combinator terms with mutated texts and odd sizes. Outcome must be None, ValueError or a problem of the dimensions stated in the URL that serializes and whose canonical text decodes to an equal problem; anything else is bucketed by (exception type, innermost cspuz frame) so that one root cause does not hide the next. Every body of <= 3 (4) characters over each codec's token characters on six tiny boards is enumerated exhaustively. Thorough: 16 atheris workers x 60 s (FuzzedDataProvider decoding into entry kind/codec/dimensions/body; empty and seeded corpora). One open known finding (Tupl.serialize ignoring surplus items of an element; see known_findings.json and DESIGN.md 7.8) is replayed on every run and printed as KNOWN-FINDING. Exploration. Boards of 1-3 x 400-2500 cells with exact-length all-zero Rooms bodies and single rooms snaking through 20-50 x 20-50 boards are generated as well (deep recursion).",
     note="Trusted base: the oracle in checks/c17.py; workers run under a 2 GiB address-space cap so that unbounded allocation on a short input surfaces as MemoryError. compass.parse_puzz_link_url is outside the property. 12/12 sensitivity mutants caught; seven root causes found and fixed (see known_findings.json); the atheris target rediscovers them on the original snapshot within 40 s.",
     design_ref="3/C17",
 )
 
 CHECKS["C18"] = dict(
     technique="model-based random walks (Hypothesis-generated operation sequences) over the builder's proposed updates with a partition-validity invariant after every step",
-    text="Boards 1..5 x 1..5 (thorough 7x7); a drawn target partition fixes feasible bounds (min/max block count and size, some None); start from initial() (single block or initial_blocks = target, also with allow_unmet_constraints_first), Python's random seeded per case; up to 40 picks among candidates(cur) applied with copy_with_update. After every step and on sibling candidates: every cell in exactly one non-empty block, every block orthogonally connected (BFS), block count and sizes inside the bounds, the previous value equal to a deep copy taken before, and no block list shared between the new and the previous value. Exploration (sampled histories).",
+    text="Boards 1..5 x 1..5 (thorough 7x7); a drawn target partition fixes feasible bounds (min/max block count and size, some None); start from initial() (single block or initial_blocks = target, also with allow_unmet_constraints_first), Python's random seeded per case; up to 40 picks among candidates(cur) applied with copy_with_update. After every step and on sibling candidates: every cell in exactly one non-empty block, every block orthogonally connected (BFS), block count and sizes inside the bounds, the previous value equal to a deep copy taken before, and no block list shared between the new and the previous value. Exploration (sampled histories). A quarter of the targets contain a block that encloses another block (ring with a tail); at the first step every proposal is applied.",
     note="Trusted base: the 40-line invariant in checks/c18.py. initial() runs under a guard of 3000 random.choice calls (a hit is inconclusive; none observed). 10/10 sensitivity mutants caught.",
     design_ref="3/C18",
 )
 
 CHECKS["C19"] = dict(
     technique="Hypothesis-generated builder patterns and pure solver callbacks with a recording oracle (soundness, purity, neighbour validity), metamorphic reproducibility runs (global random state / backend / interpreter), and range, chi-square and dictated-raw-word checks of the deterministic PRNG",
-    text="(a) generate_problem runs over generated patterns (Choice, ArrayBuilder2D with symmetry / disallow_adjacent incl. custom offsets / use_move / symmetric initial, SegmentationBuilder2D, nested lists and tuples with constants) and hash-based solver, uniqueness, score, pretest and penalty callbacks: the result is None or the first solver argument that was sat and accepted; every neighbour differs from the current problem in exactly one builder position with values from the choice set, keeps container types, point symmetry and (value-setting updates) the adjacency option; nothing handed out earlier is mutated. (b) one seed gives one candidate sequence under two random.seed values, on z3 vs the cspuz_core stand-in for a real model, and in a fresh interpreter; another seed gives another sequence. (c) randint in [a,b] incl. negative a and width 2^32, full support for width <= 64, ValueError on invalid ranges; choice / shuffle / random ranges. (d) chi-square (p > 1e-9) for randint, choice, shuffle (n <= 4), random; structurally, with the raw 32-bit words dictated: accepted iff below 2^32 - 2^32 mod w, value a + x mod w, equal preimage counts for w > 2^26, n! index sequences give n! permutations. Exploration.",
+    text="(a) generate_problem runs over generated patterns (Choice, ArrayBuilder2D with symmetry / disallow_adjacent incl. custom offsets / use_move / symmetric initial, SegmentationBuilder2D, nested lists and tuples with constants) and hash-based solver, uniqueness, score, pretest and penalty callbacks: the result is None or the first solver argument that was sat and accepted; every neighbour differs from the current problem in exactly one builder position with values from the choice set, keeps container types, point symmetry and (value-setting updates) the adjacency option; nothing handed out earlier is mutated. (b) one seed gives one candidate sequence under two random.seed values, on z3 vs the cspuz_core stand-in for a real model, and in a fresh interpreter; another seed gives another sequence. (c) randint in [a,b] incl. negative a and width 2^32, full support for width <= 64, ValueError on invalid ranges; choice / shuffle / random ranges. (d) chi-square (p > 1e-9) for randint, choice, shuffle (n <= 4), random; structurally, with the raw 32-bit words dictated: accepted iff below 2^32 - 2^32 mod w, value a + x mod w, equal preimage counts for w > 2^26, n! index sequences give n! permutations. Exploration. shuffle is decided exactly over the decision tree of its randint draws in any order; randint exactly when the documented word mapping is observed (incl. two rejections in a row), statistically on the widest ranges otherwise.",
     note="Trusted base: the recording oracle in checks/c19.py; uniformity of the xorshift stream itself is taken from the literature. 16/16 sensitivity mutants caught; two genuine defects found and fixed (randint offset, segmentation using Python's random).",
     design_ref="3/C19",
 )
